@@ -416,9 +416,11 @@ Fixpoint run (l : list event) (s : st) : st :=
   | [] => s
   | e :: r => run r (match step e s with Some s' => s' | None => s end)
   end.
-Inductive reach : st -> Prop :=
-| reach0 : reach init
-| reachS s e s' : reach s -> step e s = Some s' -> reach s'.
+(* reachable by a history (oldest event first) all of whose events were enabled *)
+Inductive reach_by : list event -> st -> Prop :=
+| reach0 : reach_by [] init
+| reachS l s e s' : reach_by l s -> step e s = Some s' -> reach_by (l ++ [e]) s'.
+Definition reach (s : st) : Prop := exists l, reach_by l s.
 
 (* events of the server's own threads (not of clients, not close) *)
 Definition internal (e : event) : bool :=
